@@ -1,6 +1,9 @@
 use std::fmt::Display;
 use std::net::{Ipv4Addr, SocketAddr, SocketAddrV4, SocketAddrV6};
+#[cfg(not(aquatic_verif))]
 use std::time::Instant;
+#[cfg(aquatic_verif)]
+use aquatic_verif_rt::time::Instant;
 
 use ahash::RandomState;
 
